@@ -38,6 +38,55 @@ type PropSpec struct {
 	Assumptions []string      `json:"assumptions"`
 	Undecided   []string      `json:"undecided"` // parts of the statement this check does not decide
 	Replay      map[string]string `json:"replay"` // obligation group regexp -> replay harness name
+	// ClaimOnly: function key -> names of the post / ret / step / callsite / mon clauses of that function that
+	// express THIS property (a function shared by several properties carries clauses of all of them).
+	// Supporting obligations (pre, invariants, safety, frames, locks) are always claimed.
+	ClaimOnly map[string][]string `json:"claim_only"`
+}
+
+// claimable reports whether an obligation group belongs to the property being rebaselined.
+func (ps *PropSpec) claimable(group string) bool {
+	i := strings.Index(group, "#")
+	if i < 0 {
+		return true
+	}
+	fn, rest := group[:i], group[i+1:]
+	variant := ""
+	if j := strings.Index(fn, "/"); j >= 0 && !strings.HasPrefix(fn, "lemma") {
+		fn, variant = fn[:j], fn[j+1:] // contract variant
+	}
+	only, ok := ps.ClaimOnly[fn]
+	if !ok {
+		return true
+	}
+	for _, o := range only {
+		if variant != "" && o == "-variant:"+variant {
+			return false // a contract variant that serves another property
+		}
+	}
+	kind := rest
+	name := ""
+	if j := strings.Index(rest, ":"); j >= 0 {
+		kind, name = rest[:j], rest[j+1:]
+	}
+	switch kind {
+	case "post", "ret", "step", "callsite", "mon":
+	case "frame":
+		if !strings.HasPrefix(name, "noeffects:") && name != "det" {
+			return true
+		}
+	default:
+		return true
+	}
+	if j := strings.LastIndex(name, "/"); j >= 0 && kind != "post" {
+		name = name[j+1:]
+	}
+	for _, o := range only {
+		if o == name {
+			return true
+		}
+	}
+	return false
 }
 
 type Finding struct {
@@ -328,7 +377,13 @@ func cmdCheck(args []string) int {
 						maxMs = o.Ms
 					}
 				}
-				if maxMs*3 <= int64(timeout)*1000 && !strings.Contains(gname, "#safe:ovf") {
+				prev := false
+				for _, bg := range baseline {
+					if bg == gname {
+						prev = true // claimed before and still discharging: a slow run under load does not drop it
+					}
+				}
+				if (prev || maxMs*3 <= int64(timeout)*1000) && !strings.Contains(gname, "#safe:ovf") && ps.claimable(gname) {
 					fmt.Println(gname)
 				}
 			}
